@@ -83,29 +83,29 @@ func runC16(w *World, r *Report) {
 	r.NotDecided = []string{"the full call-sequence state machine against a reference model", "at-most-once under concurrent duplicates beyond C17 (atomic removal) and C03 (index)", "expiry timing of challenges"}
 	type g struct {
 		label string
-		edges func(fn *ssa.Function) []Edge
+		edges gspec
 	}
-	verifyReq := func(fn *ssa.Function) []Edge { // verifier.Verify(in.Data, in.Signature, [32]byte(in.Hash), in.Address)
-		return callEdges(fn, ").Verify", "errnil", argPaths("in.Data", "in.Signature", "in.Hash", "in.Address"))
-	}
-	challenge := func(fn *ssa.Function) []Edge {
-		return callEdges(fn, ").ValidateData", "true", argPaths("in.Address", "in.Data"))
+	verifyReq := callSpec(").Verify", "errnil", argPathsR("in.Data", "in.Signature", "in.Hash", "in.Address")) // verifier.Verify(in.Data, in.Signature, [32]byte(in.Hash), in.Address)
+	challenge := callSpec(").ValidateData", "true", argPathsR("in.Address", "in.Data"))
+	dataIsAddress := func(fn *ssa.Function, res resolver) []Edge {
+		is := func(p string) func(ssa.Value) bool { return func(v ssa.Value) bool { return res(v) == bp(p) } }
+		return cmpEdges(fn, is("in.Data"), is("in.Address"), true)
 	}
 	rows := []struct {
 		handler string
 		effect  string
-		bind    func(recv ssa.Value, args []ssa.Value) bool
+		bind    func(res resolver, recv ssa.Value, args []ssa.Value) bool
 		guards  []g
 	}{
-		{"Propose", ").CreateLeaf", argPaths("_", "trx"), []g{
-			{"request converted by ProtoTrxToTrx(in)", func(fn *ssa.Function) []Edge { return callEdges(fn, ".ProtoTrxToTrx", "errnil", argPaths("in")) }},
-			{"issuer signature verified on the converted transaction", func(fn *ssa.Function) []Edge { return callEdges(fn, ").VerifyIssuer", "errnil", recvPath("trx")) }},
-			{"transaction carries no data (pure transfer)", func(fn *ssa.Function) []Edge { return callEdges(fn, ").IsContract", "false", recvPath("trx")) }},
+		{"Propose", ").CreateLeaf", argPathsR("_", "trx"), []g{
+			{"request converted by ProtoTrxToTrx(in)", callSpec(".ProtoTrxToTrx", "errnil", argPathsR("in"))},
+			{"issuer signature verified on the converted transaction", callSpec(").VerifyIssuer", "errnil", recvPathR("trx"))},
+			{"transaction carries no data (pure transfer)", callSpec(").IsContract", "false", recvPathR("trx"))},
 		}},
-		{"Propose", ").SaveAwaitedTransaction", argPaths("trx"), []g{
-			{"issuer signature verified", func(fn *ssa.Function) []Edge { return callEdges(fn, ").VerifyIssuer", "errnil", recvPath("trx")) }},
-			{"transaction carries data (contract)", func(fn *ssa.Function) []Edge { return callEdges(fn, ").IsContract", "true", recvPath("trx")) }},
-			{"data size within the configured limit", func(fn *ssa.Function) []Edge {
+		{"Propose", ").SaveAwaitedTransaction", argPathsR("trx"), []g{
+			{"issuer signature verified", callSpec(").VerifyIssuer", "errnil", recvPathR("trx"))},
+			{"transaction carries data (contract)", callSpec(").IsContract", "true", recvPathR("trx"))},
+			{"data size within the configured limit", func(fn *ssa.Function, res resolver) []Edge {
 				var es []Edge
 				for _, b := range fn.Blocks {
 					if len(b.Instrs) == 0 {
@@ -113,8 +113,10 @@ func runC16(w *World, r *Report) {
 					}
 					if iff, ok := b.Instrs[len(b.Instrs)-1].(*ssa.If); ok {
 						if bo, ok := iff.Cond.(*ssa.BinOp); ok && bo.Op == token.GTR {
-							if p, _, isLen := lenExpr(bo.X); isLen && p == bp("trx.Data") && strings.HasSuffix(pathOf(bo.Y), ".dataSize") {
-								es = append(es, Edge{b, 1})
+							if c, isCall := bo.X.(*ssa.Call); isCall {
+								if bi, isB := c.Call.Value.(*ssa.Builtin); isB && bi.Name() == "len" && res(c.Call.Args[0]) == bp("trx.Data") && strings.HasSuffix(pathOf(bo.Y), ".dataSize") {
+									es = append(es, Edge{b, 1})
+								}
 							}
 						}
 					}
@@ -122,40 +124,32 @@ func runC16(w *World, r *Report) {
 				return es
 			}},
 		}},
-		{"Confirm", ").CreateLeaf", argPaths("_", "trx"), []g{
-			{"request converted by ProtoTrxToTrx(in)", func(fn *ssa.Function) []Edge { return callEdges(fn, ".ProtoTrxToTrx", "errnil", argPaths("in")) }},
-			{"issuer and receiver signatures verified", func(fn *ssa.Function) []Edge {
-				return callEdges(fn, ").VerifyIssuerReceiver", "errnil", recvPath("trx"))
-			}},
-			{"it was awaiting here and was removed for its receiver", func(fn *ssa.Function) []Edge {
-				return callEdges(fn, ").RemoveAwaitedTransaction", "errnil", argPaths("trx.Hash", "trx.ReceiverAddress"))
-			}},
+		{"Confirm", ").CreateLeaf", argPathsR("_", "trx"), []g{
+			{"request converted by ProtoTrxToTrx(in)", callSpec(".ProtoTrxToTrx", "errnil", argPathsR("in"))},
+			{"issuer and receiver signatures verified", callSpec(").VerifyIssuerReceiver", "errnil", recvPathR("trx"))},
+			{"it was awaiting here and was removed for its receiver", callSpec(").RemoveAwaitedTransaction", "errnil", argPathsR("trx.Hash", "trx.ReceiverAddress"))},
 		}},
-		{"Confirm", ").RemoveAwaitedTransaction", argPaths("trx.Hash", "trx.ReceiverAddress"), []g{
-			{"issuer and receiver signatures verified", func(fn *ssa.Function) []Edge {
-				return callEdges(fn, ").VerifyIssuerReceiver", "errnil", recvPath("trx"))
-			}},
+		{"Confirm", ").RemoveAwaitedTransaction", argPathsR("trx.Hash", "trx.ReceiverAddress"), []g{
+			{"issuer and receiver signatures verified", callSpec(").VerifyIssuerReceiver", "errnil", recvPathR("trx"))},
 		}},
-		{"Reject", ").RemoveAwaitedTransaction", argPaths("in.Data", "in.Address"), []g{
+		{"Reject", ").RemoveAwaitedTransaction", argPathsR("in.Data", "in.Address"), []g{
 			{"request signed by the removing address over the transaction hash", verifyReq},
 		}},
 		{"Reject", ").CreateLeaf", nil, []g{
 			{"request signed", verifyReq},
-			{"awaiting transaction removed for the signer", func(fn *ssa.Function) []Edge {
-				return callEdges(fn, ").RemoveAwaitedTransaction", "errnil", argPaths("in.Data", "in.Address"))
-			}},
+			{"awaiting transaction removed for the signer", callSpec(").RemoveAwaitedTransaction", "errnil", argPathsR("in.Data", "in.Address"))},
 		}},
-		{"Waiting", ").ReadTransactions", argPaths("in.Address"), []g{{"unexpired server challenge for this address", challenge}, {"challenge signed under the queried address", verifyReq}}},
-		{"TransactionsInDAG", ").ReadDAGTransactionsByAddress", argPaths("_", "in.Address"), []g{{"unexpired server challenge for this address", challenge}, {"challenge signed under the queried address", verifyReq}}},
-		{"Balance", ").CalculateBalance", argPaths("_", "in.Address"), []g{
-			{"signed data is the address itself", func(fn *ssa.Function) []Edge { return cmpEdges(fn, pathIs("in.Data"), pathIs("in.Address"), true) }},
+		{"Waiting", ").ReadTransactions", argPathsR("in.Address"), []g{{"unexpired server challenge for this address", challenge}, {"challenge signed under the queried address", verifyReq}}},
+		{"TransactionsInDAG", ").ReadDAGTransactionsByAddress", argPathsR("_", "in.Address"), []g{{"unexpired server challenge for this address", challenge}, {"challenge signed under the queried address", verifyReq}}},
+		{"Balance", ").CalculateBalance", argPathsR("_", "in.Address"), []g{
+			{"signed data is the address itself", dataIsAddress},
 			{"signed under the queried address", verifyReq},
 		}},
-		{"Balance", ").ReadBalance", argPaths("in.Address"), []g{
-			{"signed data is the address itself", func(fn *ssa.Function) []Edge { return cmpEdges(fn, pathIs("in.Data"), pathIs("in.Address"), true) }},
+		{"Balance", ").ReadBalance", argPathsR("in.Address"), []g{
+			{"signed data is the address itself", dataIsAddress},
 			{"signed under the queried address", verifyReq},
 		}},
-		{"Saved", ").ReadTransactionByHash", argPaths("_", "in.Data"), []g{{"request signed over the requested hash", verifyReq}}},
+		{"Saved", ").ReadTransactionByHash", argPathsR("_", "in.Data"), []g{{"request signed over the requested hash", verifyReq}}},
 	}
 	r.rule("effect-behind-authorisation", "the protected effect of each notary handler lies behind the success edge of every required check, applied to the same request fields", 14)
 	for _, row := range rows {
@@ -168,11 +162,14 @@ func runC16(w *World, r *Report) {
 			trxFrom = "result:).RemoveAwaitedTransaction"
 		}
 		curBinder = bindNames(f.fn, map[string]string{"in": "param:2", "trx": trxFrom})
-		var effs []ssa.CallInstruction
-		for _, c := range callsTo2(f.fn, row.effect) {
-			recv, args := callArgs(c)
-			if row.bind == nil || row.bind(recv, args) {
-				effs = append(effs, c)
+		var effs []dcall
+		for _, d := range deepCalls(f.fn, bySuffix(row.effect), deepDepth) {
+			if d.c.Parent().Parent() != nil && len(d.chain) == 0 {
+				continue // inside a function literal of the handler (asynchronous clean-up): not the handler's own effect
+			}
+			recv, args := callArgs(d.c)
+			if row.bind == nil || row.bind(d.res(), recv, args) {
+				effs = append(effs, d)
 			}
 		}
 		name := row.effect[2:]
@@ -182,19 +179,20 @@ func runC16(w *World, r *Report) {
 		}
 		for _, eff := range effs {
 			for _, gd := range row.guards {
-				es := gd.edges(f.fn)
-				r.check(behind(eff, es), "effect-behind-authorisation", row.handler+"/"+name+"/"+gd.label, lineOf(w, eff), name+" only behind: "+gd.label,
-					fmt.Sprintf("effect reachable without crossing the check's success edge (%d candidate edges)", len(es)))
+				es := gd.edges(f.fn, idRes)
+				r.check(behindDeepSite(eff, gd.edges), "effect-behind-authorisation", row.handler+"/"+name+"/"+gd.label, lineOf(w, eff.c), name+" only behind: "+gd.label,
+					fmt.Sprintf("effect reachable without crossing the check's success edge (%d candidate edges in the handler itself)", len(es)))
 			}
 		}
 	}
 	// Reject: the sealed transaction is the one returned by the removal
 	if f := w.fx(r, "notaryserver", "server", "Reject"); f != nil {
-		for _, c := range callsTo2(f.fn, ").CreateLeaf") {
+		for _, d := range deepCalls(f.fn, bySuffix(").CreateLeaf"), deepDepth) {
+			c := d.c
 			_, args := callArgs(c)
 			ok := false
 			// &trx where trx is assigned from RemoveAwaitedTransaction's result #0
-			if al, isAl := strip(args[1]).(*ssa.Alloc); isAl {
+			if al, isAl := strip(d.argValue(args[1])).(*ssa.Alloc); isAl {
 				for _, ref := range *al.Referrers() {
 					if st, isSt := ref.(*ssa.Store); isSt && st.Addr == ssa.Value(al) {
 						if ex, isEx := st.Val.(*ssa.Extract); isEx && ex.Index == 0 {
@@ -216,8 +214,8 @@ func runC16(w *World, r *Report) {
 	}
 	for _, h := range handlersOf(w)["NotaryAPIServer"] {
 		for _, suf := range []string{").CreateLeaf", ").SaveAwaitedTransaction", ").RemoveAwaitedTransaction", ").ReadTransactions", ").ReadDAGTransactionsByAddress", ").CalculateBalance", ").ReadBalance", ").ReadTransactionByHash"} {
-			for _, c := range callsBySuffix(h, suf) {
-				r.check(listed[h.Name()+suf], "no-unlisted-effects", h.Name()+"/"+suf[2:], lineOf(w, c), "effect is covered by an authorisation row", "effect without a rule")
+			for _, d := range deepCalls(h, bySuffix(suf), deepDepth) {
+				r.check(listed[h.Name()+suf], "no-unlisted-effects", h.Name()+"/"+suf[2:], lineOf(w, d.c), "effect is covered by an authorisation row", "effect without a rule")
 			}
 		}
 	}
@@ -229,19 +227,16 @@ func runC16(w *World, r *Report) {
 		var del ssa.CallInstruction
 		okLock := true
 		n := 0
-		instrsOf(f.fn, func(in ssa.Instruction) {
-			c, ok := in.(ssa.CallInstruction)
-			if !ok || !strings.HasPrefix(calleeName(c), "(*"+bigPkg+".BigCache).") {
-				return
-			}
+		for _, d := range deepCalls(f.fn, func(c ssa.CallInstruction) bool { return strings.HasPrefix(calleeName(c), "(*"+bigPkg+".BigCache).") }, deepDepth) {
+			c := d.c
 			n++
 			if !li.At(c).Has(hipMux, "W") {
 				okLock = false
 			}
-			if strings.HasSuffix(calleeName(c), ").Delete") && del == nil {
+			if strings.HasSuffix(calleeName(c), ").Delete") && del == nil && len(d.chain) == 0 {
 				del = c
 			}
-		})
+		}
 		r.check(okLock && n >= 3, "removal-atomic", "RemoveAwaitedTransaction/one-critical-section", w.Pos(f.fn.Pos()), "lookup, receiver check and delete share one exclusive critical section", fmt.Sprintf("%d cache calls, all under the lock: %v", n, okLock))
 		okDel := del != nil
 		if del != nil {
